@@ -430,7 +430,7 @@ def shrink_candidates(scn):
                 yield s
 
 
-RUNS = {"quick": 4000, "thorough": 200000}
+RUNS = {"quick": 4000, "thorough": 150000}
 RULE = ("one evaluation = one seeded history of 3-40 store operations over 1-4 NPZ archives in a "
         "private directory: save under one of 18 postfix names (prefixes / suffixes of each other, "
         "digits, underscores, names equal to the archive's own key stems), whole-file saves, loads "
